@@ -334,6 +334,13 @@ def evaluate_deltas(expr, target_idx: str = None):
             preferred, killable = idx
             # try to remove killable
             if killable not in target_idx:
+                # both indices are contracted and do only occur on the delta:
+                # sum_pq delta_pq gives the dimension of the space and not 1
+                # -> no index can be removed without loosing the sum
+                if preferred not in target_idx and not any(
+                        obj.has(preferred) or obj.has(killable)
+                        for obj in expr.args if obj is not d):
+                    continue
                 expr = expr.subs(killable, preferred)
                 if len(deltas) > 1:
                     return evaluate_deltas(expr, target_idx)
